@@ -225,8 +225,8 @@ brk("C19", "c19-itype-case", TT, "    return FileTypes(file_type.lower())", "   
 brk("C19", "c19-ext-case", TT, "      return FileTypes(file_extension.lower())", "      return FileTypes(file_extension)", "TYPE")
 brk("C19", "c19-ext-wins", TT, "    if file_type is None:\n      if len(file_extension) > 0", "    if file_extension is not None:\n      if len(file_extension) > 0", "TYPE", "extension wins over --itype")
 brk("C19", "c19-config-precedence", TT, "  if args.config is not None:\n    json_config_data = json.loads(args.config)\n  if args.config_file is not None:\n    with open(args.config_file) as json_file:\n      json_config_data = json.load(json_file)\n",
-    "  if args.config_file is not None:\n    with open(args.config_file) as json_file:\n      json_config_data = json.load(json_file)\n  if args.config is not None:\n    json_config_data = json.loads(args.config)\n", "CONFIG")
-brk("C19", "c19-config-file-elif", TT, "  if args.config_file is not None:\n    with open(args.config_file)", "  elif args.config_file is not None:\n    with open(args.config_file)", "CONFIG", "file ignored when both given")
+    "  if args.config_file is not None:\n    with open(args.config_file) as json_file:\n      json_config_data = json.load(json_file)\n  if args.config is not None:\n    json_config_data = json.loads(args.config)\n", "FIN-config")
+brk("C19", "c19-config-file-elif", TT, "  if args.config_file is not None:\n    with open(args.config_file)", "  elif args.config_file is not None:\n    with open(args.config_file)", "FIN-config", "file ignored when both given")
 brk("C19", "c19-wrong-config-class", TT, "    writer_config = read_config_from_json(SRTWriterConfiguration, json_config_data)", "    writer_config = read_config_from_json(VTTWriterConfiguration, json_config_data)", "DSP-types")
 brk("C19", "c19-scc-config-dropped", TT, "    model = scc_reader.to_model(file_as_str, reader_config, progress_callback_read)", "    model = scc_reader.to_model(file_as_str, None, progress_callback_read)", "DSP-types")
 brk("C19", "c19-output-opened-early", TT, "    srt_document = srt_writer.from_model(model, writer_config, progress_callback_write)\n\n    #\n    # Write out the converted file\n    #\n    with open(outputfile, \"w\", encoding=\"utf-8\") as srt_file:\n      srt_file.write(srt_document)",
